@@ -101,6 +101,8 @@ def known_signatures(prop):
 def _shard_entry(args):
     modname, spec, seed, tier = args
     os.environ['VERIF_IN_SHARD'] = '1'
+    import logging
+    logging.disable(logging.CRITICAL)
     t0 = time.time()
     try:
         mod = importlib.import_module(modname)
@@ -152,6 +154,8 @@ def main(argv=None):
         print(f'HARNESS-ERROR property={prop} plan() failed')
         return 2
 
+    import logging
+    logging.disable(logging.CRITICAL)
     # replay corpus first (committed shrunk failures / regression inputs)
     corpus_failures = []
     corpus_n = 0
@@ -324,6 +328,8 @@ def _do_replay(mod, prop, path, known):
         path = os.path.join(VERIF, path)
     with open(path) as f:
         doc = json.load(f)
+    import logging
+    logging.disable(logging.CRITICAL)
     try:
         fs = mod.replay(doc['case']) or []
     except Exception:
